@@ -582,6 +582,19 @@ func (f *Frame) applyContract(x ssa.Instruction, con *Contract, fn *ssa.Function
 		vc.oblige(kind, label, at, t, vc.P.line(x.Pos()), cl.Src, vc.con.Serves)
 		vc.assume(at, t, "after "+kind)
 	}
+	// documented panics of the callee: the caller must not meet their condition
+	for i, cl := range con.PanicsIf {
+		t, err := env.trBool(cl.Expr)
+		if err != nil {
+			panic(unsupported{fmt.Sprintf("contract of %s: panics if %s: %v", name, cl.Src, err)})
+		}
+		label := fmt.Sprintf("%s:p%d", short, i)
+		if f.depth > 0 {
+			label = canonShort(f.fn) + ">" + label
+		}
+		vc.oblige("safe/callee-panic", label, at, not(t), vc.P.line(x.Pos()), "callee panics if "+cl.Src, vc.con.Serves)
+		vc.assume(at, not(t), "after safe/callee-panic")
+	}
 	// modifies
 	var locs []modLoc
 	for _, me := range con.Modifies {
